@@ -1171,7 +1171,7 @@ def mpf_exp(x, prec, rnd=round_fast):
             # Need about log2(exp(n)) ~= 1.45*mag extra precision
             e = mpf_e(wp+int(1.45*mag))
             return mpf_pow_int(e, man<<exp, prec, rnd)
-        if mag < -wp:
+        if mag <= -wp:
             return mpf_perturb(fone, sign, prec, rnd)
         # |x| >= 2
         if mag > 1:
